@@ -9,13 +9,14 @@ writes <builddir>/C19_types_<K>.inc, one line per type:
     C19_TYPE("i8[2,d,3]", std::int8_t, 2, D, 3)
 
 The *quick* table is the same for every seed (so that a replay never depends on VERIF_SEED):
-    every static/dynamic pattern of rank 0..3 over static values {0,2,3} (85 patterns) and every static/dynamic mask of
-    rank 4 (16 patterns, static values rotated through {2,3,0}), each with one index type (two for rank 1 and 2) chosen
-    by rotation so that each of the 8 index types int8..uint64 meets every rank and many masks;  plus the patterns
-    [], [d], [d,d], [2,d] with all 8 index types, [3], [d,3] with 4, [d,d,d] with int8/uint8, [d,d,d,d] with
-    int8/uint8/uint64.  Three quarters of the rank-3/4 rotation patterns are "light" (C19_TYPE_L: no mdspan<left/right>
-    and mdarray suites).  About 155 types: one full type costs ~3-4 s of compile time with ASan+UBSan.
-The *thorough* table adds a seeded sample of 300 further types (rank 1..4, static values 0..4, any index type).
+    every static/dynamic pattern of rank 1..3 over static values {0,2,3} (84 patterns) and every static/dynamic mask of
+    rank 4 (16 patterns, static values rotated through {2,3,0}), each once, index type by rotation so that each of the
+    8 index types int8..uint64 meets every rank and many masks;  rank 0 with int8/uint64;  [d] and [d,d] with all 8
+    index types, [2,d] with two more, [d,d,d,d] with int8/uint8.  About 120 types at three instantiation levels (see
+    quick_table): the compile time of one FULL type is ~3-4 s and ~25 MB of compiler memory with ASan+UBSan, and the
+    property is limited to 6 translation units, so the expensive suites go to a representative subset.
+The *thorough* table raises every quick type by one level and adds a seeded sample of --extra (100) further types
+    (rank 1..4, static values 0..4, any index type; a third FULL, the rest LIGHT).
 Types whose static extents alone are not representable (std: Mandates) are never emitted.
 Every type named by a saved case (replay/C19, violations/C19, known_findings.json probes) of harness C19_mdspan_<K> is
 added to part K with the full suite, so a replay of a case found with another seed or tier always finds its instantiation.
@@ -65,52 +66,64 @@ def patterns(rank, values):
     return out
 
 
+FULL, LIGHT, CORE = 2, 1, 0
+MACRO = {FULL: "C19_TYPE", LIGHT: "C19_TYPE_L", CORE: "C19_TYPE_C"}
+
+
 def quick_table():
-    """returns [(index type, pattern, full)]:  pattern coverage (every pattern, index type by rotation) + index-type
-    coverage (representative patterns of every rank with all / half of the 8 index types).
-    full=True : every sub-check;  full=False ("light") : extents + the three layout mappings + mdspan over layout_stride,
-    i.e. without the mdspan<left/right> and mdarray suites, whose code does not depend on the static/dynamic pattern
-    beyond what the mapping and extents checks already exercise (they cost 70 % of the compile time of a type)."""
+    """returns [(index type, pattern, level)].  Levels (what is instantiated for the type):
+       CORE  : extents (all constructors, conversions) + layout_left/right mappings               (~27 % of FULL)
+       LIGHT : CORE + layout_stride (all stride variants) + mdspan over layout_stride + transpose   (~43 % of FULL)
+       FULL  : LIGHT + mdspan over layout_left/right (all constructors, conversion) + mdarray
+    The static/dynamic pattern of an extents type only matters inside etl::extents (storage of the dynamic extents,
+    _dynamic_index, constructors); mappings, mdspan and mdarray reach it through extent()/fwd_prod/rev_prod.  So every
+    pattern gets at least CORE, and the expensive suites are instantiated for a representative subset."""
     types = []
 
-    def add(it, pat, full):
+    def add(it, pat, level):
         for i, t in enumerate(types):
             if t[0] == it and t[1] == pat:
-                types[i] = (it, pat, t[2] or full)
+                types[i] = (it, pat, max(t[2], level))
                 return
-        types.append((it, pat, full))
+        types.append((it, pat, level))
 
     allit = [t[0] for t in ITYPES]
+    add("i8", (), FULL)
+    add("u64", (), FULL)
     k = 0
-    for rank in range(0, 4):
+    for rank in range(1, 4):
         for pat in patterns(rank, [0, 2, 3, None]):
-            n = {0: 8, 1: 2, 2: 2, 3: 1}[rank]
-            for j in range(n):
-                add(ITYPES[(k + 3 * j) % 8][0], pat, rank <= 2 or k % 4 == 1)
+            it = ITYPES[k % 8][0]
+            if rank == 1:
+                level = LIGHT
+            elif rank == 2:
+                level = FULL if k % 2 == 0 else LIGHT
+            else:
+                level = FULL if k % 8 == 1 else LIGHT if k % 8 == 5 else CORE
+            add(it, pat, level)
             k += 1
     rot = [2, 3, 0]
     for mask in range(16):
         pat = tuple(None if (mask >> (3 - i)) & 1 else rot[(mask + i) % 3] for i in range(4))
-        add(ITYPES[(mask * 3 + 1) % 8][0], pat, mask % 4 == 2)
-    for pat in [(None,), (None, None), (2, None)]:
-        for it in allit:
-            add(it, pat, True)
-    for pat in [(3,), (None, 3)]:
-        for it in ("i8", "u16", "i32", "u64"):
-            add(it, pat, True)
-    for it in ("i8", "u8"):
-        add(it, (None, None, None), True)
-    for it in ("i8", "u8", "u64"):
-        add(it, (None, None, None, None), True)
+        level = FULL if mask in (2, 7, 13) else LIGHT if mask in (4, 9, 14) else CORE
+        add(ITYPES[(mask * 3 + 1) % 8][0], pat, level)
+    # index-type coverage
+    for it in allit:
+        add(it, (None,), FULL)
+        add(it, (None, None), FULL if it in ("i8", "u16", "i32", "u64") else LIGHT)
+    add("u8", (2, None), FULL)
+    add("i64", (2, None), FULL)
+    add("i8", (None, None, None, None), FULL)
+    add("u8", (None, None, None, None), LIGHT)
     return types
 
 
-def thorough_extra(seed, have):
+def thorough_extra(seed, have, count):
     rng = random.Random(0xC19 * 1000003 + seed)
     out = []
     seen = set(have)
     guard = 0
-    while len(out) < 300 and guard < 100000:
+    while len(out) < count and guard < 100000:
         guard += 1
         rank = rng.choice([1, 2, 3, 3, 4, 4, 4])
         pat = tuple(rng.choice([None, None, 0, 1, 2, 3, 4]) for _ in range(rank))
@@ -119,7 +132,7 @@ def thorough_extra(seed, have):
         if key in seen or not static_ok(it, pat):
             continue
         seen.add(key)
-        out.append((it, pat, True))
+        out.append((it, pat, FULL if len(out) % 3 == 0 else LIGHT))
     return out
 
 
@@ -173,22 +186,23 @@ def main():
     ap.add_argument("--out", required=True)
     ap.add_argument("--seed", type=int, default=1)
     ap.add_argument("--tier", default="quick")
+    ap.add_argument("--extra", type=int, default=100, help="thorough: size of the seeded sample of further types")
     ap.add_argument("--list", action="store_true")
     a = ap.parse_args()
 
     types = [t for t in quick_table() if static_ok(t[0], t[1])]
     if a.tier == "thorough":
-        types = [(it, pat, True) for it, pat, _ in types]  # thorough: every sub-check for every type
-        types += thorough_extra(a.seed, [(it, pat) for it, pat, _ in types])
-    # full types first, then light ones, each round-robin over the parts: every part gets the same mix of cost
-    order = [t for t in types if t[2]] + [t for t in types if not t[2]]
+        types = [(it, pat, min(FULL, lv + 1)) for it, pat, lv in types]  # one level up for every quick type
+        types += thorough_extra(a.seed, [(it, pat) for it, pat, _ in types], a.extra)
+    # sorted by level, then round-robin over the parts: every part gets the same mix of cost
+    order = [t for lv in (FULL, LIGHT, CORE) for t in types if t[2] == lv]
     mine = [t for i, t in enumerate(order) if i % a.nparts == a.part]
     for it, pat in saved_case_types(a.part):
-        mine = [t for t in mine if not (t[0] == it and t[1] == pat)] + [(it, pat, True)]
+        mine = [t for t in mine if not (t[0] == it and t[1] == pat)] + [(it, pat, FULL)]
     lines = ["// generated by gen/C19_gen.py --part %d --nparts %d --seed %d --tier %s : %d types (of %d)" % (a.part, a.nparts, a.seed, a.tier, len(mine), len(types))]
-    for it, pat, full in mine:
+    for it, pat, lv in mine:
         args = "".join(", " + ("D" if p is None else str(p)) for p in pat)
-        lines.append('%s("%s", %s%s)' % ("C19_TYPE" if full else "C19_TYPE_L", name_of(it, pat), IBYNAME[it][1], args))
+        lines.append('%s("%s", %s%s)' % (MACRO[lv], name_of(it, pat), IBYNAME[it][1], args))
     path = os.path.join(a.out, "C19_types_%d.inc" % a.part)
     tmp = path + ".tmp%d" % os.getpid()
     with open(tmp, "w") as f:
